@@ -547,16 +547,22 @@ static void run_line(char *line) {
 		if (strcmp(ARG(5), "default")) mtbl_writer_options_set_block_size(o, (size_t)IARG(5));
 		if (strcmp(ARG(6), "default")) mtbl_writer_options_set_block_restart_interval(o, (size_t)IARG(6));
 		if (IARG(7) >= 0) mtbl_writer_options_set_threadpool(o, pools[IARG(7)]);
-		long plen = IARG(8);
-		if (plen > 0 || (nt > 9 && !strcmp(ARG(9), "fd"))) {
+		long long plen = atoll(ARG(8));
+		if (plen > 0 || (nt > 9 && (!strcmp(ARG(9), "fd") || !strcmp(ARG(9), "sparse")))) {
 			int fd = open(ARG(2), O_WRONLY | O_CREAT | O_EXCL, 0644);
 			if (fd < 0) { writers[w] = NULL; }
 			else {
-				uint8_t *pre = malloc((size_t)plen + 1);
-				xs_fill(pre, (size_t)plen, 77);
-				ssize_t wr = plen ? write(fd, pre, (size_t)plen) : 0;
-				assert(wr == plen);
-				free(pre);
+				if (nt > 9 && !strcmp(ARG(9), "sparse")) {
+					/* reserve the initial bytes as a hole: the table starts plen bytes into the file */
+					off_t o = lseek(fd, (off_t)plen, SEEK_SET);
+					assert(o == (off_t)plen);
+				} else {
+					uint8_t *pre = malloc((size_t)plen + 1);
+					xs_fill(pre, (size_t)plen, 77);
+					ssize_t wr = plen ? write(fd, pre, (size_t)plen) : 0;
+					assert(wr == plen);
+					free(pre);
+				}
 				writers[w] = mtbl_writer_init_fd(fd, o);
 				close(fd);
 			}
@@ -564,8 +570,8 @@ static void run_line(char *line) {
 			writers[w] = mtbl_writer_init(ARG(2), o);
 		}
 		mtbl_writer_options_destroy(&o);
-		sb_printf(&s, "{\"e\":\"WInit\",\"w\":%d,\"path\":\"%s\",\"pool\":%ld,\"fd\":%s,\"prefix\":%ld,\"comp\":%d,\"level\":\"%s\",\"bs\":%ld,\"ri\":%ld,\"ok\":%s}",
-			  w, ARG(2), IARG(7), (plen > 0 || (nt > 9 && !strcmp(ARG(9), "fd"))) ? "true" : "false", plen,
+		sb_printf(&s, "{\"e\":\"WInit\",\"w\":%d,\"path\":\"%s\",\"pool\":%ld,\"fd\":%s,\"prefix\":%lld,\"comp\":%d,\"level\":\"%s\",\"bs\":%ld,\"ri\":%ld,\"ok\":%s}",
+			  w, ARG(2), IARG(7), (plen > 0 || (nt > 9 && (!strcmp(ARG(9), "fd") || !strcmp(ARG(9), "sparse")))) ? "true" : "false", plen,
 			  strcmp(ARG(3), "default") ? (int)comp_of(ARG(3)) : 2, ARG(4),
 			  strcmp(ARG(5), "default") ? IARG(5) : 8192L, strcmp(ARG(6), "default") ? IARG(6) : 16L,
 			  writers[w] ? "true" : "false");
